@@ -74,7 +74,7 @@ def generate(rng, tier):
         cs = mod.generate(sub, "quick")
         sub.shuffle(cs)
         for c in cs[:per]:
-            base.append(Case(c.op, c.args, meta={"nt": False, "src": name}))
+            base.append(Case(c.op, c.args, mop=c.mop, meta={"nt": False, "src": name}))
     cases = list(base)
     pool = [c for c in base if c.op in TEXT_OPS or c.op in BYTE_OPS or c.op in FIRST_ARG_TEXT or c.op in TWO_BYTE_ARGS]
     for _ in range(nfuzz):
@@ -101,7 +101,7 @@ def generate(rng, tier):
         args[ai] = enc(m)
         # 64 KiB inputs are compared with the model too (the models reverse with the linear [frev])
         huge = len(m) > 6000
-        cases.append(Case(c.op, args, meta={"nt": True, "src": "fuzz-huge" if huge else "fuzz"}))
+        cases.append(Case(c.op, args, mop=c.mop, meta={"nt": True, "src": "fuzz-huge" if huge else "fuzz"}))
     # oversized inputs
     big = "9" * 40
     cases.append(Case("pat.match", [enc("p>=" + big), enc("p-" + big + "nb" + big)], meta={"nt": True, "src": "big"}))
@@ -128,7 +128,7 @@ def nontrivial(c):
 
 def model_post(c, o):
     # digests are outside the model: same post-processing as the properties the cases come from
-    if c.op == "di.verify":
+    if c.op in ("di.verify", "di.verifyl"):
         return importlib.import_module("props.c12").model_post(c, o)
     if c.op.startswith("dg."):
         return importlib.import_module("props.c13").model_post(c, o)
